@@ -4,7 +4,7 @@ import re
 import z3
 
 from .values import *  # noqa: F401,F403
-from .engine import (Path, Unsupported, ContractError, PathEnd, PyRaise, CtlReturn, CtlBreak, CtlContinue)
+from .engine import (Path, Unsupported, ContractError, PathEnd, PyRaise, CtlReturn, CtlBreak, CtlContinue, guarded_check)
 
 DROPPED_CALL_PREFIXES = ("logger.",)            # calls dropped by the mechanical extraction (DESIGN 3.2)
 DROPPED_METHODS = {"close_out"}                   # progress-bar traffic
@@ -797,7 +797,7 @@ class Exec(Path):
         if isinstance(v, VBox):
             t = v.t
             if self.entails(PV.is_PTuple(t)) or self.entails(PV.is_PList(t)):
-                seq = z3.If(PV.is_PTuple(t), PV.titems(t), PV.items(t))
+                seq = PV.titems(t) if self.entails(PV.is_PTuple(t)) else PV.items(t)
                 if not self.branch(z3.Length(seq) == n):
                     self.raise_("ValueError")
                 return [VBox(seq[i]) for i in range(n)]
@@ -1088,6 +1088,15 @@ class Exec(Path):
         return self.getitem(obj, key)
 
     def getitem(self, obj, key):
+        if isinstance(obj, VBox) and self.pure and isinstance(key, VInt):
+            kk = z3.simplify(key.t)
+            t = obj.t
+            det = [z3.simplify(f(t)) for f in (PV.is_PTuple, PV.is_PList, PV.is_PDict, PV.is_PBytes, PV.is_PStr)]
+            if z3.is_int_value(kk) and kk.as_long() >= 0 and not any(z3.is_true(d) for d in det):
+                # total reading of x[i] for a boxed x of undetermined type: by constructor
+                i = kk.as_long()
+                return VBox(z3.If(PV.is_PTuple(t), PV.titems(t)[i],
+                                  z3.If(PV.is_PList(t), PV.items(t)[i], z3.Select(PV.dmap(t), self.key_term(key)))))
         if isinstance(obj, VBox):
             obj = self.unbox(obj)
         if isinstance(obj, VTuple):
@@ -1424,11 +1433,11 @@ class Exec(Path):
             if isinstance(op, ast.Mult):
                 return VInt(x * y)
             if isinstance(op, ast.FloorDiv):
-                if not self.branch(y != 0):
+                if not self.pure and not self.branch(y != 0):
                     self.raise_("ZeroDivisionError")
                 return VInt(self.floordiv(x, y))
             if isinstance(op, ast.Mod):
-                if not self.branch(y != 0):
+                if not self.pure and not self.branch(y != 0):
                     self.raise_("ZeroDivisionError")
                 return VInt(self.pymod(x, y))
             if isinstance(op, ast.Div):
@@ -1635,6 +1644,21 @@ class Exec(Path):
         # contract-only helper: old(expr)
         if self.pure and isinstance(n.func, ast.Name) and n.func.id == "old":
             return self.eval_old(n.args[0])
+        if self.pure and isinstance(n.func, ast.Name) and n.func.id == "with_lemma" and len(n.args) == 2:
+            # with_lemma(L, G): L is a ground instance of a valid fact (a spec function that is true for all arguments).
+            # Proving: G may use L.  Assuming (callee postcondition at a call site): both L and G are available.
+            lem = self.truth(self.eval(n.args[0]))
+            goal = self.truth(self.eval(n.args[1]))
+            if getattr(self, "assuming_post", 0):
+                return VBool(z3.And(lem, goal))
+            return VBool(z3.Implies(lem, goal))
+        if self.pure and isinstance(n.func, ast.Name) and n.func.id == "implies" and len(n.args) == 2:
+            # the consequent is only evaluated where the antecedent can hold (it may mention names that are unbound otherwise)
+            a = self.truth(self.eval(n.args[0]))
+            a = z3.simplify(a)
+            if z3.is_false(a) or not self.feasible(a):
+                return VBool(z3.BoolVal(True))
+            return VBool(z3.Implies(a, self.truth(self.eval(n.args[1]))))
         f = self.eval(n.func)
         args = []
         for a in n.args:
@@ -1878,6 +1902,7 @@ class Exec(Path):
             saved_old = self.old
             self.old = old
             ghosts = list(c.ghost.items())
+            self.assuming_post = getattr(self, "assuming_post", 0) + 1
             for cl in c.all_ensures(vi):
                 props, lab, expr = self._clause(cl, self.func_stack[-1])
                 used = [g for g, _ in ghosts if re.search(r"\b%s\b" % re.escape(g), expr)]
@@ -1889,6 +1914,9 @@ class Exec(Path):
                 for trig in self.call_triggers(dict(ghosts)[used[0]]):
                     self.env[used[0]] = trig
                     self.assume(self.eval_contract_expr(expr))
+            self.assuming_post -= 1
+            for ex in c.extra.get("post_lemmas", []):
+                self.assume(self.eval_contract_expr(ex))
             for gname, gexpr in c.extra.get("ghost_out", {}).items():
                 if gexpr.strip() in ("hashed()",):
                     continue
@@ -1898,7 +1926,7 @@ class Exec(Path):
             if post:
                 post(self, bound, result)
             self.old = saved_old
-            if self.solver.check() == z3.unsat:
+            if guarded_check(self.solver, 2000) == z3.unsat:
                 # the callee's postcondition contradicts what is known at the call site (typically a missing `modifies`):
                 # continuing would make everything after this call vacuously true
                 raise ContractError(f"postcondition of {info.qualname} is contradictory at this call site (missing modifies?)")
